@@ -43,7 +43,8 @@ def run(prog, chk):
     # once _write starts collecting, it collects every queued status: the drain loop over self._reqs has no other way out
     # than the queue running empty or an error (a `break` leaves later - possibly rejecting - statuses unexamined)
     loops = [lp for lp in walk_no_defs(wr.node) if isinstance(lp, ast.While) and "self._reqs" in unparse(lp.test)]
-    chk.floor("R1", "drain loops over self._reqs in SFTPFile._write", len(loops), 1)
+    if not loops:
+        chk.ob("R1.drain-collects-every-queued-status", "SFTPFile._write#none", False, wr.loc, "no loop collects the queued statuses of SFTPFile._write at all")
     for i, lp in enumerate(loops):
         early = [x for st in lp.body for x in ast.walk(st) if isinstance(x, (ast.Break, ast.Return))]
         reads = [x for st in lp.body for x in ast.walk(st) if M.is_call(x, attr="_read_response")]
